@@ -67,6 +67,12 @@ def run_case(case, res):
                         pth = os.path.join(tmp, "tree.nutree")
                         t.save(pth, compression=comp, meta=user_meta, key_map=km, value_map=vm, **save_kw)
                         t2 = load_cls.load(pth, file_meta=fmeta, **load_kw)
+                        if comp is False and load_cls.__name__ in ("Tree", "MyTree", "FileSystemTree"):
+                            # a file that was written uncompressed can be read with the detection switched off
+                            t2c = load_cls.load(pth, auto_uncompress=False, **load_kw)
+                            res.count("loads_without_auto_uncompress")
+                            if sergen.shape(t2c) != src:
+                                bad.append(f"[{label}] load(auto_uncompress=False) of an uncompressed file differs")
                         if rng.random() < 0.3:
                             from pathlib import Path
 
